@@ -38,7 +38,8 @@ async function workerMain(id, tier, shard, nshards, seed) {
     nontrivial: 0, engineErrors: [], spaces: {}, hashes: new Set(), ntHashes: new Set(),
     samples: [], failing: [], maxDepth: 0, clauses: {}, detLog: [],
   };
-  const spaces = check.spaces(tier);
+  const prepared = process.env.VERIF_PREPARED ? JSON.parse(fs.readFileSync(process.env.VERIF_PREPARED, 'utf8')) : undefined;
+  const spaces = check.spaces(tier, prepared);
   let pending = null;
   const judgeBatch = async (b) => {
     const resps = await b.p;
@@ -200,14 +201,25 @@ async function parentMain(id, tier, opts) {
   const seed = Number.isInteger(+process.env.VERIF_SEED) ? Math.abs(+process.env.VERIF_SEED | 0) : 0;
   const nshards = opts.shards || NSHARDS;
   const runPath = path.join(__dirname, '..', 'run.js');
+  let prepInfo = null, prepFile = null;
+  if (check.prepare) {
+    // sequential phase before the sharded exploration (e.g. the canonical-state skeleton of explorer H)
+    const prepared = await check.prepare(tier);
+    if (prepared) {
+      prepFile = path.join(os.tmpdir(), `verif_prep_${process.pid}.json`);
+      fs.writeFileSync(prepFile, JSON.stringify(prepared));
+      prepInfo = prepared.info || null;
+    }
+  }
   const results = await Promise.all(
     Array.from({ length: nshards }, (_, shard) => new Promise((resolve) => {
-      const child = fork(runPath, ['--worker', id, tier, String(shard), String(nshards), String(seed)], { stdio: ['ignore', 'inherit', 'inherit', 'ipc'] });
+      const child = fork(runPath, ['--worker', id, tier, String(shard), String(nshards), String(seed)], { stdio: ['ignore', 'inherit', 'inherit', 'ipc'], env: Object.assign({}, process.env, prepFile ? { VERIF_PREPARED: prepFile } : {}) });
       let got = null;
       child.on('message', (m) => { if (m && m.type === 'done') got = m.out; });
       child.on('exit', (code, signal) => resolve(got || { crashed: true, code, signal, shard }));
     })),
   );
+  if (prepFile) try { fs.unlinkSync(prepFile); } catch (e) {}
   const crashed = results.filter((r) => r.crashed);
   const ok = results.filter((r) => !r.crashed);
   const sum = (k) => ok.reduce((a, r) => a + (r[k] || 0), 0);
@@ -286,6 +298,7 @@ async function parentMain(id, tier, opts) {
       driver_respawns: sum('driverSpawns') - ok.length,
       second_pass_fresh_process_reversed: sum('secondPass'),
       engine_errors: engineErrorCount,
+      prepare_phase: prepInfo,
     },
     assumptions: check.assumptions || [],
     wall_s: wall,
